@@ -4,6 +4,7 @@
 (*   {"ev":"read","lane":l,"s":..,"ns":..}            a monotonic reading                   *)
 (*   {"ev":"elapsed","lane":l,"base_s","base_ns","ds","dns","bs","bns","s","ns"}             *)
 (*                                                     MonotonicInstant::elapsed, bracketed  *)
+(*   {"ev":"hugesleep","lane":l,"d":name,"signals":n,"returned":0/1,"res":..,"waited_ms":..} *)
 (*   {"ev":"intr","lane":helper lane,"target":l,"s","ns"}  SIGUSR1 sent to sleeping lane l       *)
 (*   {"ev":"sleep","lane":l,"ds","dns","bs","bns","s","ns","res"}  reading before, sleep(d), *)
 (*                                                     reading after, result of sleep()      *)
@@ -56,7 +57,16 @@ IntrEv == /\ i <= Len(Rec) /\ Rec[i].ev = "intr"
              /\ Norm(v) /\ Leq(seen[Rec[i].lane], v)
              /\ seen' = [seen EXCEPT ![Rec[i].lane] = v]
           /\ i' = i + 1 /\ UNCHANGED <<nread, nsleep>>
-Next == ReadEv \/ SleepEv \/ ElapsedEv \/ IntrEv
+\* a sleep of a HUGE duration (i64::MAX s and more), looked at >= 2 s after it started, possibly hit
+\* by signals meanwhile: it is still asleep (Clock!SleepEnd is not enabled: now < start + d), or it
+\* returned an error (a duration the kernel interface cannot express); an Ok return came early.
+HugeEv == /\ i <= Len(Rec) /\ Rec[i].ev = "hugesleep"
+          /\ Rec[i].waited_ms >= 2000
+          /\ Rec[i].returned = 0 \/ Rec[i].res = "err"
+          /\ LET v == <<Rec[i].s, Rec[i].ns>> IN
+             /\ Norm(v) /\ seen' = [seen EXCEPT ![Rec[i].lane] = v]
+          /\ i' = i + 1 /\ nsleep' = nsleep + 1 /\ UNCHANGED nread
+Next == ReadEv \/ SleepEv \/ ElapsedEv \/ IntrEv \/ HugeEv
 Done == i > Len(Rec) \/ ~ENABLED Next
 Report == Done => PrintT(<<"CLOCK", ToJson([n |-> Len(Rec), consumed |-> i - 1, reads |-> nread, sleeps |-> nsleep])>>)
 =============================================================================
